@@ -248,6 +248,9 @@ def fcn_cases(draw, tier):
         # a group of agents built from ONE settings dict (what the runner does), with a randomised window
         lo = draw(st.integers(1, 30))
         params["timeWindowSize"] = [lo, lo + draw(st.sampled_from([1, 1, 2, 5, 40]))]
+        if params.get("marginType") == "normal" and "meanReversionTime" in params:
+            # (same regime restriction as in fcn_params: no extrapolation of the expected price towards 0 in normal-margin mode)
+            params["meanReversionTime"] = {"const": [max(params["meanReversionTime"]["const"][0], params["timeWindowSize"][1])]}
     with_index = draw(st.integers(0, 3)) == 0
     return {"state": draw(states(n_markets=(2, 2), index=True)) if with_index else draw(states(n_markets=(1, 2))), "params": params,
             "access": "all" if with_index else draw(st.sampled_from(["all", "first"])),
